@@ -126,6 +126,8 @@ Redef ==
    CaseOf("C07/redef/multi-shadows-global-in-block", <<Def1("a", I("1")), Func("f", <<>>, <<>>, <<If1(BoolL(TRUE), <<Def(<<"a", "b">>, <<I("5"), I("2")>>), PrintS(<<Var("a"), Var("b")>>)>>), Print1(Var("a"))>>), ExprS(CallE("f", <<>>)), Print1(Var("a"))>>),
    CaseOf("C07/redef/multi-assigns-global-at-top", <<Def1("a", I("1")), Def(<<"a", "b">>, <<I("5"), I("2")>>), PrintS(<<Var("a"), Var("b")>>)>>),
    CaseOf("C07/redef/multi-assigns-param", <<Func("f", <<Param("s", "string")>>, <<"string">>, <<Def(<<"s", "c">>, <<Bin("+", Var("s"), StrL("!")), I("1")>>), RetS(<<Bin("+", Var("s"), Itoa(Var("c")))>>)>>), Print1(CallE("f", <<StrL("x")>>))>>),
+   CaseOf("C07/redef/multi-outer-name-in-block", <<Def1("a", I("1")), If1(BoolL(TRUE), <<Def(<<"a", "b">>, <<I("5"), I("2")>>), PrintS(<<Var("a"), Var("b")>>)>>), Print1(Var("a"))>>),
+   CaseOf("C07/redef/multi-loopvar-in-body", <<For3(Def1("i", I("0")), CmpE("<", Var("i"), I("2")), Inc("i"), <<Def(<<"i", "j">>, <<Bin("+", Var("i"), I("1")), I("2")>>), PrintS(<<Var("i"), Var("j")>>)>>)>>),
    CaseOf("C07/caller-locals", <<Func("callee", <<>>, <<>>, <<Print1(Var("loc"))>>), Func("caller", <<>>, <<>>, <<Def1("loc", I("1")), ExprS(CallE("callee", <<>>))>>), ExprS(CallE("caller", <<>>))>>),
    CaseOf("C07/caller-params", <<Func("callee", <<>>, <<>>, <<Print1(Var("p"))>>), Func("caller", <<Param("p", "int")>>, <<>>, <<ExprS(CallE("callee", <<>>))>>), ExprS(CallE("caller", <<I("1")>>))>>),
    CaseOf("C07/missing-return/none", <<Func("f", <<>>, <<"int">>, <<Print1(I("1"))>>)>>),
